@@ -12,7 +12,8 @@ Two256 == Pad(<<>>, 32) \o <<1>>
 Two255 == Pad(<<>>, 31) \o <<128>>
 LimbOf(p, i) == BNorm(SubSeq(Pad(p, 32), 8 * (i - 1) + 1, 8 * i))                \* i = 1 least significant
 LimbSet(p, i) == { <<>>, <<1>>, Pad(<<>>, 7) \o <<128>>, BSub(Two64, <<1>>), LimbOf(p, i),
-                   BMod(BAdd(LimbOf(p, i), <<1>>), Two64), BMod(BAdd(LimbOf(p, i), BSub(Two64, <<1>>)), Two64) }
+                   BMod(BAdd(LimbOf(p, i), <<1>>), Two64), BMod(BAdd(LimbOf(p, i), BSub(Two64, <<1>>)), Two64),
+                   BDiv(LimbOf(p, i), <<2>>), BAdd(BDiv(LimbOf(p, i), <<2>>), <<1>>) }       \* half-limb boundaries
 Mont(p) == { m \in { BNorm(Pad(l1, 8) \o Pad(l2, 8) \o Pad(l3, 8) \o Pad(l4, 8)) :
                      l1 \in LimbSet(p, 1), l2 \in LimbSet(p, 2), l3 \in LimbSet(p, 3), l4 \in LimbSet(p, 4) } : BLess(m, p) }
 RInv(p) == BModInvPrime(BMod(Two256, p), p)
@@ -30,8 +31,25 @@ MPairs(p) == LET S == Mont(p) \ { <<>> }
 \* carry-class families for the interleaved sum of products (C12): Montgomery residues just below p, and small ones
 HiRes(p) == { BSub(p, N(t)) : t \in 1..48 } \cup { BSub(p, Pad(<<>>, k) \o <<1>>) : k \in {1, 2, 4, 8, 16, 24, 30} }
 LoRes(p) == { N(t) : t \in 1..48 } \cup { Pad(<<>>, k) \o <<1>> : k \in {1, 2, 4, 8, 16, 24, 30} }
+\* V-boundary families: operands for which the value V = (m_a m_b + k p) / 2^256 reached by the Montgomery reduction BEFORE
+\* its conditional subtraction sits on a boundary (p-1, p, p+1, 2^256-1, 2^256, 2^256 + small, 2^256 + 2^64k +- 1, 2^256 + 2^192 -+ 1).
+\* For a target v and a chosen m_a, m_b = v * 2^256 / m_a (mod p) gives V = v (mod p), i.e. V = v mod p or V = (v mod p) + p.
+Two192 == Pad(<<>>, 24) \o <<1>>
+Two128 == Pad(<<>>, 16) \o <<1>>
+VTargets(p) == { BSub(p, <<1>>), p, BAdd(p, <<1>>), BSub(Two256, <<1>>), Two256, BAdd(Two256, <<1>>), BAdd(Two256, <<2>>),
+                 BAdd(Two256, BSub(Two64, <<1>>)), BAdd(Two256, Two64), BAdd(Two256, Two128), BAdd(Two256, BSub(Two192, <<1>>)),
+                 BAdd(Two256, Two192), BAdd(Two256, BSub(Two128, <<1>>)) } \cup { BAdd(Two256, N(t)) : t \in 3..12 }
+Seeds == { N(3), N(5), N(7), N(11), BSub(Two64, <<59>>), BAdd(Two128, <<17>>), BAdd(Two192, <<1, 1>>), BSub(Two255, <<19>>) }
+VPairs(p) == { << s, BMulMod(BMulMod(BMod(v, p), BMod(Two256, p), p), BModInvPrime(s, p), p) >> : v \in VTargets(p), s \in Seeds }
+\* squares: m_a with m_a^2 = v * 2^256 (mod p), both roots, when v * 2^256 is a quadratic residue (p = 5 mod 8 for q; r is handled by the
+\* generic Tonelli-Shanks below only for q: for r the family is left to the pairs above)
+SqSeeds(p) == { BMulMod(BMod(v, p), BMod(Two256, p), p) : v \in VTargets(p) \cup { BAdd(Two256, N(t)) : t \in 13..60 } }
+VSquares == LET qr == { c \in SqSeeds(Q) : FQ!FIsQR(c) /\ c # <<>> }
+            IN UNION { { FqSqrt(c), FQ!FNeg(FqSqrt(c)) } : c \in qr }
 Enc32(a) == ToBE(a, 32)
-PoolOf(p) == [ hi |-> SetToSeq({ Enc32(OutOfMont(p, m)) : m \in HiRes(p) }),
+PoolOf(p) == [ vpairs |-> SetToSeq({ << Enc32(OutOfMont(p, pr[1])), Enc32(OutOfMont(p, pr[2])) >> : pr \in VPairs(p) }),
+               vsq |-> IF p = Q THEN SetToSeq({ Enc32(OutOfMont(p, m)) : m \in VSquares }) ELSE <<>>,
+               hi |-> SetToSeq({ Enc32(OutOfMont(p, m)) : m \in HiRes(p) }),
                lo |-> SetToSeq({ Enc32(OutOfMont(p, m)) : m \in LoRes(p) }),
                vals |-> SetToSeq({ Enc32(v) : v \in Vals(p) }),
                pairs |-> SetToSeq({ << Enc32(OutOfMont(p, pr[1])), Enc32(OutOfMont(p, pr[2])) >> : pr \in MPairs(p) }) ]
